@@ -108,10 +108,15 @@ for node in tree.body:
                 out['ast']['%s.%s' % (node.name, sub.name)] = {
                     k: d.get(k) for k in ('index', 'frame_id', 'name', 'synchronous', 'valid_responses', '__slots__')}
     if isinstance(node, ast.Assign) and getattr(node.targets[0], 'id', '') == 'INDEX_MAPPING':
-        m = {}
-        for k, v in zip(node.value.keys, node.value.values):
-            m[str(ast.literal_eval(k))] = ast.unparse(v)
-        out['ast_mapping'] = m
+        m = None
+        if isinstance(node.value, ast.Dict):
+            m = {}
+            try:
+                for k, v in zip(node.value.keys, node.value.values):
+                    m[str(ast.literal_eval(k))] = ast.unparse(v)
+            except Exception:
+                m = None
+        out['ast_mapping'] = m      # None: not a plain literal (AST view unavailable)
 print(json.dumps(out, default=repr))
 '''
 
@@ -181,7 +186,8 @@ def kernels(tier, seed):
         queries.append(('attr_' + a, '(assert (not (= (code_%s i) (spec_%s i))))' % (a, a), ['i']))
     # AST view: class attribute literals in the source text agree with the spec as well
     ast_by_index = {}
-    mapped = set(code.get('ast_mapping', {}).values())
+    ast_unavailable = code.get('ast_mapping') is None
+    mapped = set((code.get('ast_mapping') or {}).values())
     for qual, d in code['ast'].items():
         # method classes only (Basic.Properties also carries an index attribute but is no method)
         if d.get('index') is not None and (qual in mapped or d.get('name') != 'Basic.Properties'):
@@ -197,9 +203,10 @@ def kernels(tier, seed):
         pre.append(_fun('code_' + a, {k: enc(norm(d.get(key))) for k, d in ast_by_index.items()}))
         pre.append(_fun('spec_' + a, {k: enc(v[sk]) for k, v in want.items()}))
         queries.append(('attr_' + a, '(assert (not (= (code_%s i) (spec_%s i))))' % (a, a), ['i']))
-    pre.append(_fun('code_ast_mapping', code.get('ast_mapping', {})))
-    pre.append(_fun('spec_ast_mapping', {k: v['name'] for k, v in want.items()}))
-    queries.append(('attr_ast_mapping', '(assert (not (= (code_ast_mapping i) (spec_ast_mapping i))))', ['i']))
+    if not ast_unavailable:
+        pre.append(_fun('code_ast_mapping', code.get('ast_mapping') or {}))
+        pre.append(_fun('spec_ast_mapping', {k: v['name'] for k, v in want.items()}))
+        queries.append(('attr_ast_mapping', '(assert (not (= (code_ast_mapping i) (spec_ast_mapping i))))', ['i']))
     # derived invariants on the code side
     pre.append(_fun('code_sync_iff', {k: enc(bool(v['synchronous']) == (len(v['replies']) > 0))
                                      for k, v in code['methods'].items()}))
@@ -242,6 +249,10 @@ def kernels(tier, seed):
             elif r['status'] != 'unsat':
                 kr['detail'] = r['raw'][:300]
             results.append(kr)
+    if ast_unavailable:
+        results.append({'name': 'attr_ast_mapping', 'status': 'unknown', 'solver': 'ast', 'queries': 0,
+                        'solver_time_s': 0, 'detail': 'INDEX_MAPPING is not a dict literal: the AST view is '
+                        'unavailable (the imported mapping is still compared)'})
     if code['extra_classes']:
         results.append({'name': 'classes_not_in_mapping', 'status': 'sat', 'solver': 'n/a', 'queries': 0,
                         'solver_time_s': 0, 'detail': ', '.join(code['extra_classes']),
